@@ -409,3 +409,34 @@ def reference_run(job):
     solo = Solo()
     sim = ThreadSim([job], solo).run()
     return sim.results[0], sim.steps[0], sim.trace_hash[0], solo.fn_counts
+
+
+def call_with_injection(fn, at, exc=Injected, region=None):
+    """Call fn() on this thread with an exception raised from the trace function at the `at`-th
+    line event inside ampycloud code (optionally restricted by region(frame)). The exception
+    surfaces in the traced frame exactly like an error from a dependency.
+    Returns (('ok', value) | ('exc', type name), fired (function, line) | None, n_line_events)."""
+    prefix = src_prefix()
+    count = [0]
+    fired = []
+
+    def local(frame, event, arg):
+        if event == 'line' and (region is None or region(frame)):
+            count[0] += 1
+            if count[0] == at:
+                fired.append((frame.f_code.co_name, frame.f_lineno))
+                raise exc(f'injected at {frame.f_code.co_name}:{frame.f_lineno}')
+        return local
+
+    def glob(frame, event, arg):
+        if event == 'call' and frame.f_code.co_filename.startswith(prefix):
+            return local
+        return None
+    sys.settrace(glob)
+    try:
+        res = ('ok', fn())
+    except BaseException as err:
+        res = ('exc', type(err).__name__)
+    finally:
+        sys.settrace(None)
+    return res, (fired[0] if fired else None), count[0]
